@@ -35,6 +35,11 @@ CHECKS = {
     technique='TLA+/TLC: state-fed trace validation of recorded edit histories of the real Circuit against CircuitWF.tla; exhaustive design run of the concrete editing model CircuitEdit.tla; its behaviours replayed into the real API',
     text='After every public edit of every history TLC evaluates, on the full projection of the real object, that indices equal list positions, name maps resolve to the right node and contain every node once, every line is referenced from exactly the two pins it records, fork outputs are gap-free, ports are nodes of the circuit, statistics match the containers, and copy/pickle yield an equal object with identical projection. Histories: every distinct (canonical state, last edit) of the bounded TLC model (exhaustive to depth 4) replayed through the API, and seeded random histories of 40..400 edits with eliminate, substitute (7 implementation shapes), copy and pickle continuing on the clone. The concrete model (literal swap-with-last, squeeze, name maps) satisfies WF in all reachable states of its bounds and must conform step by step (DRIFT only).',
     note='Well-formed use as stated in the evidence assumptions (explicit pins on free positions, single-driver forks, eliminate only on loop-free forks with drivers, substitute with matching port counts). Trusted: TLC, JSON reader, harness projection.'),
+ 'C10': dict(
+    cat='model_checking', ref='DESIGN.md §4 C10, §3 (Netlist.EvalH, TransformT)',
+    technique='TLA+/TLC: batched validation of recorded transformations of the real Circuit against the hierarchical netlist semantics (TransformT.tla), all assignments enumerated as TLC states',
+    text='For every cell name of all five built-in libraries in a one-instance host x connected-pin patterns (all, no inputs, no outputs, alternating, each single pin open), for random modules over library cells and random primitive circuits x compositions of copy, pickle, eliminate_1to1_forks, substitute (7 implementation shapes) and resolve_tlib_cells, TLC compares the meaning of the netlist before (a library cell = its implementation, pin by pin; hierarchical evaluation in TLA+) and after over ALL assignments of input ports and state elements, requires unchanged names and order of ports and state elements, no unresolved cell and no exception.',
+    note='Transparent meaning (driven ports are ordinary signals). Unconnected instance input = reads 0; FuncKept is not claimed where an open pin is the last operand of an and/or/xor-type primitive (the primitives define arity by the highest connected pin - DESIGN §5.2). <= 7 sources per case. Trusted: TLC, JSON reader, harness projection, checked topological order.'),
  'C07': dict(
     cat='model_checking', ref='DESIGN.md §4 C07, §3 (Schedule, ThreadOrder, SchedReplay)',
     technique='TLA+/TLC: model run of Schedule.tla on the published schedule (all Begin/End interleavings for narrow levels, level-wise static form for all); TLC-simulated thread orders (ThreadOrder.tla) replayed into the real simulators, judged by SchedReplay.tla',
